@@ -147,12 +147,16 @@ def run(repo, rep):
         f = m.funcs.get(fname)
         if f is None:
             raise AnalysisError('%s vanished' % fname)
-        # parameters consumed by list(...) before anything else
+        # parameters materialised on entry: the first top-level statement that mentions the parameter iterates it completely
+        # (list(p) / tuple(p) / sorted(p), or a list / dict / set comprehension over it)
         consumed = set()
-        for s in f.node.body:
-            if isinstance(s, ast.Assign) and isinstance(s.value, ast.Call) and call_name(s.value) in ('list', 'tuple') \
-                    and s.value.args and isinstance(s.value.args[0], ast.Name) and src(s.targets[0]) == src(s.value.args[0]):
-                consumed.add(s.value.args[0].id)
+        for prm in f.params:
+            for s in f.node.body:
+                if not any(isinstance(x, ast.Name) and x.id == prm for x in ast.walk(s)):
+                    continue
+                if isinstance(s, ast.Assign) and _eager_over(s.value, prm):
+                    consumed.add(prm)
+                break
         pkg_consumers[fname] = (f, consumed)
     lazy_params = {'sequence_of_docs': ['docs'], 'build_fncall': ['argdocs', 'kwargdocs']}
     for fname, (f, consumed) in pkg_consumers.items():
@@ -198,6 +202,21 @@ def run(repo, rep):
                   'every visit has ended' % (f.key, [c.lineno for c in rec]), nontrivial=True)
     rep.floor('C13.e', n, 5)
     rep.floor('C13.f', _marker(repo, rep), 1)
+
+
+def _eager_over(v, prm):
+    """the expression iterates the parameter ``prm`` to the end when it is evaluated"""
+    def is_p(x):
+        if isinstance(x, ast.Name) and x.id == prm:
+            return True
+        return isinstance(x, ast.Call) and call_name(x) in ('list', 'tuple', 'sorted', 'enumerate', 'reversed', 'iter') and x.args and is_p(x.args[0])
+    if isinstance(v, ast.Call) and call_name(v) in ('list', 'tuple', 'sorted') and v.args and is_p(v.args[0]):
+        return True
+    if isinstance(v, (ast.ListComp, ast.SetComp, ast.DictComp)) and is_p(v.generators[0].iter):
+        return True
+    if isinstance(v, (ast.List, ast.Tuple)) and len(v.elts) == 1 and isinstance(v.elts[0], ast.Starred) and is_p(v.elts[0].value):
+        return True
+    return False
 
 
 def _short(g):
